@@ -18,8 +18,9 @@ import Glom.Model.C01
 
   Part 2 (namespace `Glom.C11`): `Assign.__init__`, `Assign.glomit` (value first,
     fetch the parent, on PathAccessError with `missing`: factory call, recursive
-    Assign of the remaining path on the fresh object, re-fetch of the prefix,
-    attach), `_assign_op` driven by the branch table extracted from the source.
+    `Assign(remaining.from_t(), Val(val))` on the fresh object, re-fetch of the
+    prefix from the destination root, attach), `_assign_op` driven by the branch
+    table extracted from the source.
 
   Per-class behaviour that the five cell layouts cannot express is given by
   flags in the case's class table:
@@ -174,10 +175,13 @@ def pyDelSeqItem (env : MEnv) (h : Heap) (dest idx : Val) : Except PyExc Wr :=
 
 /-! ### registry: handler of the `assign` / `delete` op for an object -/
 
-/-- `get_handler(op, obj)`: the exact type, else the registered type nearest in
-    the object's MRO (the rule of the current `_get_closest_type`; the default
-    registrations contain `object`, so the virtual types never win).
-    `none` = UnregisteredTarget (no registered base, or the handler is `False`). -/
+/-- `get_handler(op, obj)`: the exact type, else `_get_closest_type`: of the registered types
+    the object is an instance of (the deepest down every branch of the type tree, minus those that
+    are superclasses of another candidate) the one nearest in the object's MRO.  For a registry in
+    which the two virtual types `_AbstractIterable` / `_ObjStyleKeys` carry the same handler as
+    `object` (a facts obligation, `virtualLikeObject`), that is the handler of the first class of
+    the MRO that is registered.  `none` = UnregisteredTarget (no registered base, or the handler
+    is `False`).  (Registration order, re-registration and user types are C13's subject.) -/
 def nearestHandler (ct : ClassTable) (reg : List (String × String)) (cls : String) : Option String :=
   match (ct.mro cls).find? (fun c => reg.any (·.1 == c)) with
   | some c =>
@@ -365,8 +369,9 @@ inductive Missing where
 
 /-- the `val` argument: a literal, or a T-expression / `Spec(path)` evaluated against the target -/
 inductive ValSpec where
-  | lit (v : Val)
-  | path (steps : List Step)
+  | lit (v : Val)                -- a literal (evaluated in arg mode: scalars and plain objects are themselves)
+  | path (steps : List Step)     -- a T-expression / `Spec(path)`: evaluated against the target
+  | val (v : Val)                -- `Val(v)`: the value itself, never re-evaluated
   deriving Repr
 
 /-- `self.missing()` -/
@@ -382,8 +387,8 @@ def callFactory (kind : String) (st : St) : St × Except MErr Val :=
   else if kind == "tuple" then mk (.tuple "tuple" [])
   else (st1, .error (.raised (exc "RuntimeError")))
 
-/-- does arg mode rebuild this value?  (`_ArgValuator.mode` copies exact
-    list / dict / tuple / set / frozenset objects) -/
+/-- does arg mode rebuild this value?  (`_ArgValuator.mode` copies exact list / dict / tuple /
+    set / frozenset objects; a *literal* of that kind as `val` is outside this model — C08) -/
 def rebuilds (h : Heap) : Val → Bool
   | .ref a => match h[a]? with
     | some (.list c _) => c == "list"
@@ -393,73 +398,10 @@ def rebuilds (h : Heap) : Val → Bool
     | _ => false
   | _ => false
 
-/-- state of one `_ArgValuator`: the heap and its `cache` (id of a list/dict spec ↦ its copy) -/
-structure CopySt where
-  heap : Heap
-  cache : List (Nat × Nat) := []
-
-def pairUp : List Val → List (Val × Val)
-  | k :: v :: r => (k, v) :: pairUp r
-  | _ => []
-
-mutual
-/-- `_ArgValuator.mode` on an already evaluated value: exact list / dict objects are rebuilt
-    (result allocated first and memoised by `id`, then filled), exact tuple / set / frozenset
-    objects are rebuilt from their rebuilt items, everything else is returned as it is.
-    Fuel bounds the number of visited nodes (Python does the same amount of work). -/
-def argCopy : Nat → CopySt → Val → CopySt × Val
-  | 0, s, v => (s, v)
-  | f + 1, s, .ref a =>
-    match s.heap[a]? with
-    | some (.list c xs) =>
-      if c != "list" then (s, .ref a) else
-      match s.cache.find? (·.1 == a) with
-      | some (_, b) => (s, .ref b)
-      | none =>
-        let b := s.heap.length
-        let (s2, ys) := argCopyList f { heap := s.heap ++ [.list c []], cache := (a, b) :: s.cache } xs
-        ({ s2 with heap := s2.heap.set b (.list c ys) }, .ref b)
-    | some (.dict c es) =>
-      if c != "dict" then (s, .ref a) else
-      match s.cache.find? (·.1 == a) with
-      | some (_, b) => (s, .ref b)
-      | none =>
-        let b := s.heap.length
-        let (s2, ys) := argCopyList f { heap := s.heap ++ [.dict c []], cache := (a, b) :: s.cache }
-          (es.flatMap (fun e => [e.1, e.2]))
-        ({ s2 with heap := s2.heap.set b (.dict c (pairUp ys)) }, .ref b)
-    | some (.tuple c xs) =>
-      if c != "tuple" then (s, .ref a) else
-      let (s2, ys) := argCopyList f s xs
-      ({ s2 with heap := s2.heap ++ [.tuple c ys] }, .ref s2.heap.length)
-    | some (.set c xs) =>
-      if c != "set" && c != "frozenset" then (s, .ref a) else
-      let (s2, ys) := argCopyList f s xs
-      ({ s2 with heap := s2.heap ++ [.set c ys] }, .ref s2.heap.length)
-    | _ => (s, .ref a)
-  | _ + 1, s, v => (s, v)
-def argCopyList : Nat → CopySt → List Val → CopySt × List Val
-  | 0, s, vs => (s, vs)
-  | _ + 1, s, [] => (s, [])
-  | f + 1, s, v :: vs =>
-    let (s1, v') := argCopy f s v
-    let (s2, vs') := argCopyList f s1 vs
-    (s2, v' :: vs')
-end
-
-def copyFuel : Nat := 100000
-
-/-- `arg_val(target, v, scope)` on a value that is not a spec: rebuilt when it is an exact
-    builtin container, else itself -/
-def reArgVal (st : St) (v : Val) : St × Val :=
-  if rebuilds st.heap v then
-    let (s, v') := argCopy copyFuel { heap := st.heap } v
-    ({ st with heap := s.heap, log := st.log ++ (List.range' st.heap.length (s.heap.length - st.heap.length)).map Ev.alloc }, v')
-  else (st, v)
-
 /-- `arg_val(target, self.val, scope)` for the value kinds of this model -/
 def evalVal (env : MEnv) (st : St) (target : Val) : ValSpec → St × Except MErr Val
-  | .lit v => let (st', v') := reArgVal st v; (st', .ok v')
+  | .lit v => if rebuilds st.heap v then (st, .error .unmodelled) else (st, .ok v)
+  | .val v => (st, .ok v)
   | .path steps =>
     match fetch env st.heap steps 0 target with
     | .ok (.leaf v) => (st, .ok v)
@@ -510,7 +452,8 @@ def assignAux (env : MEnv) (sroot : Bool) (sref : Val) (missing : Missing) :
             match callFactory kind st with
             | (st1, .error e') => (st1, .error e')
             | (st1, .ok fresh) =>
-              match assignAux env sroot sref missing fuel st1 fresh remaining (.lit val) with
+              -- `Assign(remaining_path.from_t(), Val(val), missing=self.missing)` on the fresh object
+              match assignAux env false sref missing fuel st1 fresh remaining (.val val) with
               | (st2, .error e') => (st2, .error e')
               | (st2, .ok val') =>
                 match orig[k]? with
